@@ -1293,20 +1293,20 @@ func (k *Kernel) checkNextRoundPrecommitViewShift(ctx context.Context, s *kState
 		"new_height", newHeight, "new_round", newRound,
 	)
 
-	maj := tmconsensus.ByzantineMajority(vs.AvailablePower)
 	maxPow := vs.PrecommitBlockPower[vs.MostVotedPrecommitHash]
-	if maxPow >= maj {
-		// Need a test in place before handling the ready to commit case.
-		panic("TODO: handle a majority precommit for NextRound")
-	}
-
 	if maxPow >= min {
 		// Make a PH fetch request if we don't have the proposed block
 		// that just crossed the threshold.
 		k.checkMissingPHs(ctx, s, s.Voting.PrecommitProofs)
 	}
 
-	return nil
+	// The round we just jumped to is the voting round now.
+	// If it already holds a majority precommit (for a block or for nil)
+	// or every precommit without a majority,
+	// it is handled like any other voting round in that situation:
+	// commit the block if we have it, wait for its header if we do not,
+	// or move on to the following round.
+	return k.checkVotingPrecommitViewShift(ctx, s)
 }
 
 // checkPrevoteViewShift inspects the Next Round to see if the total prevotes
